@@ -232,41 +232,8 @@ func (in *inst) chanWait1(s ast.Stmt, pre *[]ast.Stmt) (ast.Stmt, ast.Stmt) {
 			}
 		}
 	case *ast.SelectStmt:
-		// a select with a default clause never blocks; otherwise yield until
-		// at least one of its cases can proceed
-		var chans, sends []ast.Expr
-		hasDefault := false
-		for _, c := range x.Body.List {
-			cc := c.(*ast.CommClause)
-			switch y := cc.Comm.(type) {
-			case nil:
-				hasDefault = true
-			case *ast.SendStmt:
-				chans, sends = append(chans, y.Chan), append(sends, ast.NewIdent("true"))
-			case *ast.ExprStmt:
-				if ch := recvOf(y.X); ch != nil {
-					chans, sends = append(chans, ch), append(sends, ast.NewIdent("false"))
-				}
-			case *ast.AssignStmt:
-				if len(y.Rhs) == 1 {
-					if ch := recvOf(y.Rhs[0]); ch != nil {
-						chans, sends = append(chans, ch), append(sends, ast.NewIdent("false"))
-					}
-				}
-			}
-		}
-		p := in.fset.Position(s.Pos())
-		if hasDefault {
-			rep.ChanWrapped = append(rep.ChanWrapped, fmt.Sprintf("%s:%d(select/default)", in.rel, p.Line))
-			return nil, nil
-		}
-		w = &ast.ExprStmt{X: &ast.CallExpr{
-			Fun: &ast.SelectorExpr{X: ast.NewIdent("zzsim"), Sel: ast.NewIdent("WaitSelect")},
-			Args: []ast.Expr{
-				&ast.CompositeLit{Type: &ast.ArrayType{Elt: &ast.InterfaceType{Methods: &ast.FieldList{}}}, Elts: chans},
-				&ast.CompositeLit{Type: &ast.ArrayType{Elt: ast.NewIdent("bool")}, Elts: sends},
-			},
-		}}
+		// rewritten as a whole after the walk (desugarSelects)
+		return nil, nil
 	}
 	if w != nil {
 		in.used = true
@@ -274,6 +241,130 @@ func (in *inst) chanWait1(s ast.Stmt, pre *[]ast.Stmt) (ast.Stmt, ast.Stmt) {
 		rep.ChanWrapped = append(rep.ChanWrapped, fmt.Sprintf("%s:%d", in.rel, p.Line))
 	}
 	return w, post
+}
+
+// desugarSelects rewrites every select statement into
+//
+//	zzselK_0, zzselK_1 := <channel expressions, evaluated once, in order>
+//	zzselK_v1 := <value of a send case, if it contains a call>
+//	switch zzsim.Select([]interface{}{zzselK_0, zzselK_1}, []bool{false, true}, <has default>) {
+//	case 0:  zzsim.WaitRecv(zzselK_0); x := <-zzselK_0; zzsim.AfterChanOp(false); body...
+//	case 1:  zzsim.WaitSend(zzselK_1); zzselK_1 <- zzselK_v1; zzsim.AfterChanOp(true); body...
+//	case -1: default body...
+//	}
+//
+// The simulator - not the Go runtime's random choice among ready cases -
+// decides which case runs (a recorded decision), and the chosen case is an
+// ordinary statement-level channel operation, so unbuffered channels work in
+// select exactly as they do outside. `break` keeps its meaning (it leaves the
+// switch as it left the select); a label on the select moves to the switch.
+func (in *inst) desugarSelects(f *ast.File) {
+	n := 0
+	conv := func(sel *ast.SelectStmt) (pre []ast.Stmt, sw *ast.SwitchStmt) {
+		n++
+		var chans, sends []ast.Expr
+		hasDefault := "false"
+		var cases []ast.Stmt
+		idx := 0
+		for _, c := range sel.Body.List {
+			cc := c.(*ast.CommClause)
+			var ch *ast.Expr
+			var valTemp ast.Stmt
+			isSend := false
+			switch y := cc.Comm.(type) {
+			case nil:
+				hasDefault = "true"
+				cases = append(cases, &ast.CaseClause{List: []ast.Expr{&ast.UnaryExpr{Op: token.SUB, X: &ast.BasicLit{Kind: token.INT, Value: "1"}}}, Body: cc.Body})
+				continue
+			case *ast.SendStmt:
+				ch, isSend = &y.Chan, true
+				if hasCall(y.Value) {
+					nm := "zzsel" + strconv.Itoa(n) + "_v" + strconv.Itoa(idx)
+					valTemp = &ast.AssignStmt{Lhs: []ast.Expr{ast.NewIdent(nm)}, Tok: token.DEFINE, Rhs: []ast.Expr{y.Value}}
+					y.Value = ast.NewIdent(nm)
+				}
+			case *ast.ExprStmt:
+				if u, ok := y.X.(*ast.UnaryExpr); ok && u.Op == token.ARROW {
+					ch = &u.X
+				}
+			case *ast.AssignStmt:
+				if len(y.Rhs) == 1 {
+					if u, ok := y.Rhs[0].(*ast.UnaryExpr); ok && u.Op == token.ARROW {
+						ch = &u.X
+					}
+				}
+			}
+			if ch == nil {
+				continue // not a form the language allows
+			}
+			nm := "zzsel" + strconv.Itoa(n) + "_" + strconv.Itoa(idx)
+			pre = append(pre, &ast.AssignStmt{Lhs: []ast.Expr{ast.NewIdent(nm)}, Tok: token.DEFINE, Rhs: []ast.Expr{*ch}})
+			if valTemp != nil {
+				pre = append(pre, valTemp)
+			}
+			*ch = ast.NewIdent(nm)
+			chans = append(chans, ast.NewIdent(nm))
+			wait, flag := "WaitRecv", "false"
+			if isSend {
+				wait, flag = "WaitSend", "true"
+			}
+			sends = append(sends, ast.NewIdent(flag))
+			body := append([]ast.Stmt{simCall(wait, ast.NewIdent(nm)), cc.Comm, afterChanOp(isSend)}, cc.Body...)
+			cases = append(cases, &ast.CaseClause{List: []ast.Expr{&ast.BasicLit{Kind: token.INT, Value: strconv.Itoa(idx)}}, Body: body})
+			idx++
+		}
+		in.used = true
+		rep.ChanWrapped = append(rep.ChanWrapped, fmt.Sprintf("%s:%d(select)", in.rel, in.fset.Position(sel.Pos()).Line))
+		tag := &ast.CallExpr{
+			Fun: &ast.SelectorExpr{X: ast.NewIdent("zzsim"), Sel: ast.NewIdent("Select")},
+			Args: []ast.Expr{
+				&ast.CompositeLit{Type: &ast.ArrayType{Elt: &ast.InterfaceType{Methods: &ast.FieldList{}}}, Elts: chans},
+				&ast.CompositeLit{Type: &ast.ArrayType{Elt: ast.NewIdent("bool")}, Elts: sends},
+				ast.NewIdent(hasDefault),
+			},
+		}
+		return pre, &ast.SwitchStmt{Tag: tag, Body: &ast.BlockStmt{List: cases}}
+	}
+	fix := func(list []ast.Stmt) []ast.Stmt {
+		var out []ast.Stmt
+		for _, st := range list {
+			switch x := st.(type) {
+			case *ast.SelectStmt:
+				pre, sw := conv(x)
+				out = append(append(out, pre...), sw)
+				continue
+			case *ast.LabeledStmt:
+				if sel, ok := x.Stmt.(*ast.SelectStmt); ok {
+					pre, sw := conv(sel)
+					x.Stmt = sw
+					out = append(append(out, pre...), x)
+					continue
+				}
+			}
+			out = append(out, st)
+		}
+		return out
+	}
+	// innermost first: ast.Inspect visits parents before children, so collect
+	// and process in reverse
+	var blocks []ast.Node
+	ast.Inspect(f, func(nd ast.Node) bool {
+		switch nd.(type) {
+		case *ast.BlockStmt, *ast.CaseClause, *ast.CommClause:
+			blocks = append(blocks, nd)
+		}
+		return true
+	})
+	for i := len(blocks) - 1; i >= 0; i-- {
+		switch x := blocks[i].(type) {
+		case *ast.BlockStmt:
+			x.List = fix(x.List)
+		case *ast.CaseClause:
+			x.Body = fix(x.Body)
+		case *ast.CommClause:
+			x.Body = fix(x.Body)
+		}
+	}
 }
 
 func (in *inst) body(b *ast.BlockStmt, kind string) {
@@ -503,6 +594,7 @@ func processFile(root, path string, isCmd bool) error {
 	desugarChanRanges(fset, f, rel)
 
 	in.walk(f)
+	in.desugarSelects(f)
 	if isCmd {
 		fixUnusedImports(f)
 	}
